@@ -630,6 +630,21 @@ def cases(tier, seed):
 
         return climb(0, 0)[0]
 
+    # many run-translated calls in one expression (each needs a temporary of its own: two-digit numbering), with values
+    # that all differ
+    for nterms in ((10, 11, 12, 23) if tier == "quick" else range(9, 40)):
+        for fname in ("INT", "VAL", "LEN(STR$)"):
+            def call(j):
+                arg = ("bin", "+", ("var", "A"), X.num(j)) if j % 3 else ("bin", "*", X.num(j + 2), ("num", 1.5, ["1.5"]))
+                if fname == "INT":
+                    return ("fn", "INT", [arg])
+                if fname == "VAL":
+                    return ("fn", "VAL", [("str", str(7 * j + 3))])
+                return ("fn", "LEN", [("fn", "STR$", [X.num(10 ** (j % 7) + j)])])
+            terms = [call(j) for j in range(nterms)]
+            ops = ["+" if j % 2 else "-" for j in range(nterms - 1)]
+            yield {"ctx": "assign", "e": tree_of(terms, ops)}
+            yield {"ctx": "if_noelse", "e": ("bin", ">", tree_of(terms, ops), X.num(0))}
     for i in range(120 if tier == "quick" else 6000):
         if i % 3:
             k = rng2.randint(8, 20)
